@@ -908,7 +908,9 @@ func snDocClass(doc []byte) string {
 		}
 	}
 	walk(tree)
-	for _, h := range []string{"empty-key", "key-reads-as-number", "empty-string", "string-reads-as-number", "byte>=0x80", "int-array-nonempty", "float-needs-more-than-10-decimals", "list-of-nonempty-lists"} {
+	// the feature with an open finding names the document first: a document that also holds features of repaired
+	// defects must not hide behind them, nor they behind it in documents without it
+	for _, h := range []string{"int-array-nonempty", "empty-key", "key-reads-as-number", "empty-string", "string-reads-as-number", "byte>=0x80", "float-needs-more-than-10-decimals", "list-of-nonempty-lists"} {
 		if found[h] {
 			return h
 		}
@@ -946,7 +948,7 @@ func snWriteFile(p, s string)  { os.WriteFile(p, []byte(s), 0o644) }
 
 // ---------------------------------------------------------------- leg B: generators (inputs only)
 
-var snFloatVals = []float64{0, 1, 2, 3, 0.5, 1.5, 0.25, 2.25, 0.125, 100, 1024, 0.75, 10, 12.5, 3.5, 127}
+var snFloatVals = []float64{0, 1, 2, 3, 0.5, 1.5, 0.25, 2.25, 0.125, 100, 1024, 0.75, 10, 12.5, 3.5, 127, 0x1p-40, 0x3p-36, 1 + 0x1p-50}
 
 type snProfile struct {
 	negBytes    bool // byte values >= 0x80
